@@ -102,7 +102,7 @@ Proof.
 Qed.
 
 Lemma is_seed_kind d c : is_seed (d, c) = negb (c_kind c =? K_BLOCK_STEP).
-Proof. reflexivity. Qed.
+Proof. apply is_seed_spec. Qed.
 
 Theorem attributed_iff_reported sn : wf_snap sn -> forall i root,
   In (i, root) (attributed sn) <-> reported_under sn i root.
